@@ -512,12 +512,19 @@ impl Template {
                         MaybeOpen => format!("{buf}{{"),
                         _ => format!("{{{buf}"),
                     };
-                    new.push(c);
+                    // A line break ends the line like anywhere else in literal text: it must not
+                    // become part of the literal, whose width counts towards its own line only.
+                    if c != '\n' {
+                        new.push(c);
+                    }
                     buf.clear();
                     parts.push(TemplatePart::Literal(TabExpandedString::new(
                         new.into(),
                         tab_width,
                     )));
+                    if c == '\n' {
+                        parts.push(TemplatePart::NewLine);
+                    }
                     (Literal, None)
                 }
                 (MaybeOpen, c) if c != '}' && c != ':' => (Key, Some(c)),
